@@ -520,15 +520,49 @@ func c19InitPath(c *Check, a *Anchors) {
 	}
 	c.Fn(fb)
 	finfo := fb.Info()
+	// the variable that is written to, and "a stat of it": os.Stat itself, or a predicate of the module that stats its parameter
+	var pv *types.Var
+	inspectBody(fb.Body, func(nd ast.Node) bool {
+		if call, ok := nd.(*ast.CallExpr); ok && isFunc(callee(finfo, call), "os", "", "WriteFile") && len(call.Args) > 0 {
+			pv = varOf(finfo, call.Args[0])
+		}
+		return true
+	})
+	statsParam := func(obj types.Object) bool {
+		fn, _ := obj.(*types.Func)
+		h := c.P.DeclOf(fn)
+		if h == nil || h.Decl == nil || !strings.HasPrefix(h.Pkg.PkgPath, Mod) || h.Type.Params.NumFields() != 1 {
+			return false
+		}
+		ok := false
+		for _, hc := range callsIn(h, false) {
+			if isFunc(callee(h.Info(), hc), "os", "", "Stat") && len(hc.Args) == 1 {
+				if v := varOf(h.Info(), hc.Args[0]); v != nil && isParamOf(h.Info(), h, v) {
+					ok = true
+				}
+			}
+		}
+		return ok
+	}
 	f := NewFlow(c.P, fb, func(call *ast.CallExpr, obj types.Object) string {
 		switch {
-		case isFunc(obj, "os", "", "Stat"):
+		case isFunc(obj, "os", "", "Stat"), statsParam(obj):
 			return "stat"
 		case isFunc(obj, "os", "", "WriteFile"):
 			return "write"
 		}
 		return ""
 	})
+	f.Effect = func(label string, call *ast.CallExpr, st Facts) {
+		if label == "stat" && len(call.Args) == 1 && pv != nil && varOf(finfo, call.Args[0]) == pv {
+			st["statted-current-path"] = true
+		}
+	}
+	f.AssignHook = func(v *types.Var, rhs ast.Expr, st Facts) {
+		if v == pv {
+			delete(st, "statted-current-path") // the path changed: the earlier stat was of another file
+		}
+	}
 	f.Run()
 	nW := 0
 	for call, l := range f.Labels {
@@ -537,17 +571,8 @@ func c19InitPath(c *Check, a *Anchors) {
 		}
 		nW++
 		st := f.At[call]
-		// same path variable as the last Stat, no reassignment in between is implied by a def-free variable: require the path
-		// argument to be the variable that every Stat on the way was applied to
-		pv := varOf(finfo, call.Args[0])
-		samePath := pv != nil
-		for sc, sl := range f.Labels {
-			if sl == "stat" && varOf(finfo, sc.Args[0]) != pv {
-				samePath = false
-			}
-		}
-		c.Decide(st.Has("called:stat") && samePath, "init-path", "stat-before-write@"+fnDisplay(fb), call.Pos(), "os.Stat of the written path precedes os.WriteFile on every path",
-			"os.WriteFile can be reached without a preceding os.Stat of the written path: an existing Taskfile could be overwritten")
+		c.Decide(pv != nil && st.Has("statted-current-path"), "init-path", "stat-before-write@"+fnDisplay(fb), call.Pos(), "on every path the written path was stat'ed after its last assignment",
+			"os.WriteFile can be reached without a stat of the path in its final value (the variable was re-assigned after the last os.Stat, or never stat'ed): an existing Taskfile could be overwritten; must-facts: "+st.String())
 	}
 	c.Floor("init-path", nW, 1)
 	exists := 0
